@@ -264,6 +264,9 @@ func initDateTimeSpan() {
 		func(_ *Thread, args []value.Value) (value.Value, value.Value) {
 			self := (*value.DateTimeSpan)(args[0].Pointer())
 			other := (*value.BigFloat)(args[1].Pointer())
+			if other.IsZero() {
+				return value.Undefined, value.Ref(value.NewZeroDivisionError())
+			}
 			return value.Ref(self.DivideBigFloat(other)), value.Undefined
 		},
 		DefWithParameters(1),
